@@ -115,8 +115,8 @@ def main(argv=None):
     results, metas, crashes = [], [], []
     group_wall = {}
     nat = None
-    with cf.ProcessPoolExecutor(max_workers=max(1, a.jobs - 3), mp_context=ctx) as ex1, \
-            cf.ProcessPoolExecutor(max_workers=3, mp_context=ctx) as ex2:
+    with cf.ProcessPoolExecutor(max_workers=max(1, a.jobs - 3), mp_context=ctx, initializer=_die_with_parent) as ex1, \
+            cf.ProcessPoolExecutor(max_workers=3, mp_context=ctx, initializer=_die_with_parent) as ex2:
         futs = {}
         # longest first
         order = sorted(shim_tasks, key=lambda t: -oblig.GROUPS[(prop, t[1])].opts.get("cost", 1))
@@ -349,6 +349,17 @@ def conclude(prop, tier, seed, specs, results, metas, crashes, nat, group_wall, 
     if errors or crashes:
         return 3
     return 0
+
+
+def _die_with_parent():
+    """worker initializer: SIGKILL this worker when the driver dies (no orphaned workers after a killed check)"""
+    try:
+        import ctypes
+        import signal
+
+        ctypes.CDLL("libc.so.6", use_errno=True).prctl(1, signal.SIGKILL)  # PR_SET_PDEATHSIG
+    except Exception:
+        pass
 
 
 def _match_known(known_open, r):
